@@ -35,6 +35,8 @@ MIRRORED = {
     "core/src/typecheck/reporting.rs": ("C10", "coq/Crash/NameReg.v", ["gen_candidate_name", "select_uniq", "gen_var_name", "gen_cst_name", "taken", "insert"]),
     "core/src/term/string.rs": ("C10", "coq/Crash/Index.v", ["substring", "find_all_regex", "find_regex"]),
     "core/src/pretty.rs": ("C10", "coq/Crash/Index.v", ["pretty_print_cap"]),
+    "core/src/serialize/mod.rs": ("C10", "coq/Crash/TomlFloats.v", ["number_from_float", "check_floats", "check_value", "range_pos", "from_str", "ast_from_str",
+                                                                     "to_value", "to_value_with_pos", "to_ast", "to_record"]),
     "core/src/eval/operation.rs": ("C10", "coq/Crash/{NumOps,Index}.v", [
         "number_op1", "eval_op1::ArrayGen",
         "eval_op2::Div", "eval_op2::Modulo", "eval_op2::Pow", "eval_op2::NumberArcTan2", "eval_op2::NumberLog", "eval_op2::ArrayAt",
